@@ -12,6 +12,7 @@ iab.txt are re-read with regular expressions; generated registries carry their o
 (identifier, record bytes) from which offsets and sizes are summed directly."""
 import hashlib
 import io
+import zlib
 import ipaddress
 import os
 import re
@@ -390,6 +391,8 @@ def generate(rng, tier):
             cases.append(_lookup_case(kind, k, 'registered', 'str' if rng.random() < 0.25 else 'int'))
         for k in dups + [keys[0], keys[-1]]:
             cases.append(_lookup_case(kind, k, 'dup-or-edge'))
+        for off, (ok, ik) in sorted(_collisions().items()):
+            cases.append(_lookup_case(kind, ok if kind == 'oui' else ik, 'offset-shared-with-other-registry'))
         keyset = set(keys)
         un = []
         for k in rng.sample(keys, min(len(keys), 150 * mult)):
@@ -425,10 +428,26 @@ class _Collect(Subscriber):
         self.rows.append(list(data))
 
 
+def _peeked(data):
+    """a binary handle on the registry text of which the caller has already read some header lines
+    (never a record line): 0 lines for half of the texts, else 1, 2 or all of them.  The documented row
+    offsets are relative to the start of the file, wherever the handle stood when parse() began."""
+    fh = io.BytesIO(data)
+    h = zlib.crc32(data)
+    if h & 1:
+        for _ in range((1, 2, 1 << 30)[(h >> 1) % 3]):
+            pos = fh.tell()
+            line = fh.readline()
+            if not line or b'(hex)' in line:
+                fh.seek(pos)
+                break
+    return fh
+
+
 def _run_parser(kind, data):
     klass = ieee.OUIIndexParser if kind == 'oui' else ieee.IABIndexParser
     c = _Collect()
-    p = klass(io.BytesIO(data))
+    p = klass(_peeked(data))
     p.attach(c)
     try:
         p.parse()
@@ -484,6 +503,43 @@ def _iab_str(key):
     return '-'.join('%02X' % ((v >> sh) & 0xff) for sh in (40, 32, 24, 16, 8, 0))
 
 
+def _collisions():
+    """byte offsets that start a record in both shipped registries -> (oui key, iab key)"""
+    if 'coll' not in _D:
+        o = {}
+        for k, off, _s in _read_idx('oui.idx'):
+            o.setdefault(off, k)
+        _D['coll'] = {off: (o[off], k) for k, off, _s in _read_idx('iab.idx') if off in o}
+    return _D['coll']
+
+
+def _neighbour_lookup(kind, key):
+    """the two registries are separate files: what was read from one must not colour what is read from
+    the other.  Before a lookup whose record starts at a byte offset that also starts a record of the
+    *other* registry, look that other identifier up (and, for every 8th lookup, some identifier of the
+    other registry anyway)."""
+    rows = _idx_by_key(kind).get(key, [])
+    coll = _collisions()
+    other = None
+    for off, _s in rows:
+        if off in coll:
+            other = coll[off][1 if kind == 'oui' else 0]
+            break
+    if other is None and key % 8 == 0:
+        ks = _D.setdefault(('keys', kind), sorted(_idx_by_key('iab' if kind == 'oui' else 'oui')))
+        other = ks[key % len(ks)] if ks else None
+    if other is None:
+        return
+    try:
+        if kind == 'oui':
+            IAB(other << 12).registration()
+        else:
+            o = OUI(other)
+            [o.registration(i) for i in range(o.reg_count)]
+    except Exception:
+        pass
+
+
 def _show_parsed(org, addr):
     return ('-' if not org else hexs(org)) + '/' + plist([hexs(a) for a in addr])
 
@@ -510,7 +566,7 @@ def impl(c):
         _, kind, header, recs = a
         out = io.StringIO()
         try:
-            ieee.create_index_from_registry(io.BytesIO(header + b''.join(r for _, r in recs)), out,
+            ieee.create_index_from_registry(_peeked(header + b''.join(r for _, r in recs)), out,
                                             ieee.OUIIndexParser if kind == 'oui' else ieee.IABIndexParser)
             idx = {}
             ieee.load_index(idx, io.BytesIO(out.getvalue().encode('utf-8')))
@@ -520,6 +576,7 @@ def impl(c):
     if a[0] == 'lookup':
         _, kind, key = a[:3]
         spelling = a[3] if len(a) > 3 else 'int'
+        _neighbour_lookup(kind, key)
         try:
             if kind == 'oui':
                 o = OUI(_oui_str(key) if spelling == 'str' else key)
